@@ -201,6 +201,8 @@ pub struct Arena {
     pub force_queue: std::collections::VecDeque<bool>,
     /// current random-oracle instance: ideal-hash axioms relate only calls answered by the same instance
     pub oracle: u32,
+    /// draws already made, keyed by the 64 bytes consumed: the same bytes are the same draw (same variable)
+    pub draw_by_bytes: HashMap<Vec<u8>, u32>,
 }
 
 impl Arena {
@@ -225,6 +227,7 @@ impl Arena {
             force: None,
             force_queue: Default::default(),
             oracle: 0,
+            draw_by_bytes: HashMap::new(),
         }
     }
     pub fn mk(&mut self, n: Node) -> Tid {
@@ -431,11 +434,17 @@ pub fn prf(seed: u64, ctr: u64, data: &[u8]) -> U256 {
 /// (exactly what the real `Scalar::random` computes from the same 64 bytes).
 pub fn draw(prefix: &str, bytes64: &[u8; 64]) -> Tid {
     with(|a| {
+        if let Some(&v) = a.draw_by_bytes.get(&bytes64[..]) {
+            // a replayed randomness stream (e.g. a cloned RNG): identical bytes are the identical draw
+            a.draws.push(v);
+            return a.vars[v as usize].node;
+        }
         let limbs = fq::from_le_bytes(bytes64);
         let sh = fq::reduce(&limbs);
         let n = a.draws.len();
         let v = a.new_var(format!("{}{}", prefix, n), VarKind::Scalar, sh, Origin::Draw(n));
         a.draws.push(v);
+        a.draw_by_bytes.insert(bytes64.to_vec(), v);
         let t = a.vars[v as usize].node;
         if a.mode == DrawMode::NonDegenerate {
             assert!(sh != fq::ZERO, "NonDegenerate mode but the RNG stream produced a zero draw");
